@@ -731,21 +731,34 @@ def r046_kind(an, rep):
     for tset in [set()] + [{x} for x in sorted(lits)]:
         env = {k: frozenset(v) for k, v in sets.items()}
         env[flagvar] = set({"NEWLOCALS", "OPTIMIZED"} | tset)
-        env.update({"constants": (), "args": "<args>", "len": len})
+        env.update({"len": len})
         be = BlockEval(lambda name: None, extra={})
         want = next(iter(tset)) if tset else None
-        try:
+        base_env = dict(env)
+        placeholders = {}
+        for _attempt in range(8):
+          env = {k: (set(v) if isinstance(v, set) else v) for k, v in base_env.items()}
+          env.update(placeholders)
+          try:
             # the assignment(s) before the chain that the chain test reads (e.g. fn_flags = flags_data & FN_FLAGS)
             pre = [st for st in top.node.body[:top.node.body.index(chain)] if isinstance(st, ast.Assign) and len(st.targets) == 1 and isinstance(st.targets[0], ast.Name)
                    and any(isinstance(x, ast.Name) and x.id == st.targets[0].id for x in ast.walk(chain.test))]
             be.run_block(pre, env)
             env2, hit = be.run_block([chain], env, stop=call)
             got = be.ev(targ, env2) if hit else "<Function(...) not reached>"
-            left = set(env2.get(flagvar, set())) & lits
-        except BlockOutcome as o:
-            got, left = f"<{o.kind}: {norm_src(o.node)[:60]}>", set()
-        except FevalError as ex:
+            break
+          except BlockOutcome as o:
+            got = f"<{o.kind}: {norm_src(o.node)[:60]}>"
+            break
+          except FevalError as ex:
+            msg = str(ex)
+            if msg.startswith("free name ") and msg[10:] not in placeholders and msg[10:] != flagvar:
+                # a value computed before the branch that does not bear on the flags (the constants tuple, the decoded Args): an empty placeholder
+                placeholders[msg[10:]] = ()
+                continue
             raise AnalysisError(f"{top.qual}: function-type inference not evaluable for flags {sorted(tset)}: {ex}")
+        else:
+            raise AnalysisError(f"{top.qual}: function-type inference not evaluable for flags {sorted(tset)}")
         ok = got == want
         rep.add("R04.6", f"{top.qual}::Function.type for type flags {sorted(tset) or '{}'}", ok, loc(top.module, call),
                 f"-> {got!r}" if ok else f"a function whose code carries {sorted(tset) or 'none'} of the function-type flags decodes with type={got!r}; inspect classifies it as {want!r}")
